@@ -112,11 +112,14 @@ Section Orders.
      (directory removals, in-memory deletions, tmp file, rename, names-file truncation/write),
      the process is restarted (in-memory metadata rebuilt from the files, unrotated segments
      listed) and a full pass runs.  Both metadata files, the in-memory metadata and the
-     presence of every segment directory are those of the run that was not interrupted. *)
+     presence of every segment directory are those of the run that was not interrupted.
+     The repeated pass may run later (horizon hz2 >= hz) and then select more segments: the
+     outcome is that of an uninterrupted pass at hz2.  This covers every content the interrupted
+     pass may have left in segmeta.json.tmp (see C14_stale_tmp_is_harmless). *)
   Theorem C14_interrupted_then_repeated_partial : forall hz org st, wf st = true -> mmem_ok hz org st ->
-    forall k,
-    let A := run ord ordp ordn hz org (restart (interrupted ord ordp ordn k hz org st)) in
-    let B := run ord ordp ordn hz org (restart st) in
+    forall hz2, hz <= hz2 -> forall k,
+    let A := run ord ordp ordn hz2 org (restart (interrupted ord ordp ordn k hz org st)) in
+    let B := run ord ordp ordn hz2 org (restart st) in
     segmeta A = segmeta B /\ mmeta A = mmeta B /\ unrot A = unrot B /\
     (forall q, In q (mem A) <-> In q (mem B)) /\
     (forall q, In q (mmem A) <-> In q (mmem B)) /\
@@ -130,10 +133,24 @@ Section Orders.
      file is replaced by rename; for the code before the fix see
      C14_unfixed_interrupted_survivor_searchable_refuted.) *)
   Theorem C14_interrupted_survivor_searchable : forall hz org st, wf st = true -> mmem_ok hz org st ->
-    forall k s, In s (segmeta st ++ mmeta st ++ unrot st) -> expired hz org s = false -> In (s_dir s) (dirs st) ->
+    forall hz2, hz <= hz2 ->
+    forall k s, In s (segmeta st ++ mmeta st ++ unrot st) -> expired hz2 org s = false -> In (s_dir s) (dirs st) ->
     (s_kind s = KLog -> has_table st s = true) ->
-    searchable (run ord ordp ordn hz org (restart (interrupted ord ordp ordn k hz org st))) s = true.
+    searchable (run ord ordp ordn hz2 org (restart (interrupted ord ordp ordn k hz org st))) s = true.
   Proof. exact (interrupted_survivor_searchable ord ordp ordn ord_perm ordp_perm ordn_perm). Qed.
+
+  (* removeSegmetas opens segmeta.json.tmp with O_TRUNC (effect ESegTmp true): for EVERY content c
+     that an interrupted pass may have left in the temporary file, the pass ends with
+     segmeta.json = the lines that were not selected, the same file as without a stale
+     temporary file, and "listed iff directory exists" holds *)
+  Theorem C14_stale_tmp_is_harmless : forall hz org st c, wf st = true -> mmem_ok hz org st ->
+    let A := run ord ordp ordn hz org (with_seg_tmp st c) in
+    segmeta A = filter (fun s => negb (expired hz org s)) (segmeta st) /\
+    mmeta A = filter (fun s => negb (expired hz org s)) (mmeta st) /\
+    segmeta A = segmeta (run ord ordp ordn hz org st) /\
+    (forall s, In s (segmeta st ++ mmeta st) -> In (s_dir s) (dirs st) ->
+       (In s (segmeta A ++ mmeta A) <-> In (s_dir s) (dirs A))).
+  Proof. exact (stale_tmp_harmless ord ordp ordn ord_perm ordp_perm ordn_perm). Qed.
 
   (* the full statement, all directories and the index names included, under the guard "the
      pass selects no metrics segment and empties no index" (interrupt_guard, a boolean function
@@ -150,6 +167,7 @@ End Orders.
 Print Assumptions C14_retention_selects_exactly.
 Print Assumptions C14_interrupted_then_repeated_guarded.
 Print Assumptions C14_interrupted_survivor_searchable.
+Print Assumptions C14_stale_tmp_is_harmless.
 Print Assumptions C14_interrupted_then_repeated_partial.
 Print Assumptions C14_newer_segment_survives.
 Print Assumptions C14_older_segment_is_deleted.
@@ -206,6 +224,19 @@ Theorem C14_unfixed_interrupted_survivor_searchable_refuted :
     searchable (run idl idl idl hz org (restart (interrupted_unfixed idl idl idl k hz org st))) s = false.
 Proof. exists w_vt_store, 500, 0%Z, 5%nat, w_vt_seg. exact names_file_truncated_witness. Qed.
 Print Assumptions C14_unfixed_interrupted_survivor_searchable_refuted.
+
+(* (3) not a defect of siglens, the reason why the O_TRUNC flag of the temporary file is part of
+   the effect alphabet (ESegTmp trunc): opened without truncation ([pass_effs_notrunc]) a stale
+   segmeta.json.tmp keeps its tail when the repeated pass, for which one more segment has expired,
+   writes a shorter list; after the rename segmeta.json lists a segment whose directory the same
+   pass has removed *)
+Theorem C14_tmp_without_truncation_refuted :
+  exists st hz hz2 k s, wf st = true /\ hz <= hz2 /\ expired hz 0 s = false /\ expired hz2 0 s = true /\
+    let X := restart (apply_effs (firstn k (pass_effs_notrunc idl idl idl hz 0 st)) st) in
+    let A := run_notrunc idl idl idl hz2 0 X in
+    In s (segmeta A) /\ ~ In (s_dir s) (dirs A) /\ ~ In s (segmeta (run idl idl idl hz2 0 X)).
+Proof. exists w_nt_store, 300, 500, 3%nat, w_nt_L. exact tmp_without_truncation_witness. Qed.
+Print Assumptions C14_tmp_without_truncation_refuted.
 
 (* without [mmem_ok]: one selected metrics segment that the in-memory metadata does not know
    yet (rotated less than a refresh period ago) makes DeleteMetricsSegmentData return before
